@@ -13,7 +13,18 @@ Placement kinds (DESIGN section 4, C03):
   cluster   40-70 atoms inside one cube of side <= cutoff (more than 40 entries in one bin, long rows)
   dyadic    orthogonal unrotated cell, lengths/origin multiples of 1/4, positions multiples of 1/8, one pair placed at a
             Pythagorean separation m*(a,b,c)/8 (through the periodic boundary where there is one) and the cutoff set
-            exactly to its length m*r/8 or 2^-20 above: all arithmetic is exact, the boundary '<' itself is tested
+            exactly to its length m*r/8 or 2^-20 above: all arithmetic is exact, the boundary '<' itself is tested;
+            half of them scaled by 8 ('whole': every position, length and origin a whole number, so that the positions
+            can be handed over integer-typed and atomman stores them as integers)
+
+Input forms (case['form'], absent = everything plain): how the numbers are handed to atomman.
+  pos     array (float64, C-contiguous, writeable) / readonly (setflags(write=False)) / frombuffer (numpy.frombuffer,
+          read-only) / memmap (numpy.load(mmap_mode='r'), read-only) / fortran / strided (non-contiguous view into a
+          NaN-filled larger array) / list / tuple; dyadic systems also float32 (exact: eighths below 2^9) and, when
+          whole, intarray / intlist / inttuple (stored by Atoms as int64)
+  cutoff  float / npfloat (numpy.float64); a whole cutoff also int / npint
+  sizes   int / npint64 / npint32
+  pbc     list / tuple / nparray (of bool)
 """
 import numpy as np
 from hypothesis import strategies as st
@@ -25,7 +36,7 @@ MAXBINS = 30000          # cap on the number of cutoff-sized bins of the padded 
 
 CELLS = gens.cells(rotated=True, lefthanded=False, origin=True, lmin=1.0, lmax=12.0, maxtilt=1.5, families=True)
 KINDS = st.sampled_from(['sparse'] * 3 + ['targeted'] * 5 + ['faces'] * 2 + ['binedge'] * 3 + ['dense'] * 4 + ['cluster'] * 2
-                        + ['dyadic'] * 2)
+                        + ['dyadic'] * 3)
 _unit = st.integers(0, 10000).map(lambda k: k / 10000.0)      # not st.floats: those return exactly 0.0/1.0 very often
 _sym = nice(-1.0, 1.0, 4)
 _facecoord = st.one_of(st.sampled_from([0.0, 1.0, 0.0, 1.0, 0.5]), _unit)
@@ -48,6 +59,13 @@ _signs = st.lists(st.sampled_from([1, -1]), min_size=3, max_size=3)
 _len4 = st.integers(4, 48).map(lambda k: k / 4.0)
 _org4 = st.one_of(st.just(0.0), st.integers(-64, 64).map(lambda k: k / 4.0))
 _above = st.sampled_from([0.0, 0.0, 2.0 ** -20, -2.0 ** -20])
+POSFORMS = st.sampled_from(['array'] * 7 + ['readonly'] * 2 + ['frombuffer', 'memmap', 'fortran', 'strided', 'list', 'tuple'])
+DYADIC_POSFORMS = st.sampled_from(['array'] * 3 + ['float32'] + ['readonly', 'frombuffer', 'list', 'strided'])
+WHOLE_POSFORMS = st.sampled_from(['intarray'] * 3 + ['intlist'] * 2 + ['inttuple', 'float32', 'readonly', 'list', 'strided'] + ['array'] * 2)
+CUTFORMS = st.sampled_from(['float'] * 3 + ['npfloat'])
+WHOLE_CUTFORMS = st.sampled_from(['float', 'npfloat', 'int', 'int', 'npint'])
+SIZEFORMS = st.sampled_from(['int'] * 3 + ['npint64', 'npint32'])
+PBCFORMS = st.sampled_from(['list'] * 2 + ['tuple', 'nparray'])
 NATOMS = {'sparse': st.sampled_from([1, 2, 2, 3, 3, 4, 4, 5, 6]), 'dyadic': st.integers(2, 6), 'targeted': st.integers(2, 4), 'faces': st.integers(1, 8),
           'binedge': st.integers(2, 8), 'cluster': st.integers(40, 70)}
 
@@ -98,8 +116,23 @@ def dyadic_systems(draw):
         k[1][a] = t
     pos = [[org[a] + k[i][a] / 8.0 for a in range(3)] for i in range(N)]
     cutoff = m * r / 8.0 + draw(_above)
-    return {'cell': c, 'kind': 'dyadic', 'dyadic': True, 'initialsize': draw(_size), 'deltasize': draw(_size),
+    case = {'cell': c, 'kind': 'dyadic', 'dyadic': True, 'initialsize': draw(_size), 'deltasize': draw(_size),
             'pbc': [bool(p) for p in pbc], 'cutoff': float(cutoff), 'pos': pos}
+    if draw(_bool):
+        # the same system in units of 1/8: a power-of-two scaling, so every sum, square and comparison rounds (not at
+        # all) exactly as before; all positions, lengths and origins are now whole numbers
+        for key in ('lx', 'ly', 'lz'):
+            c[key] = c[key] * 8.0
+        c['origin'] = [x * 8.0 for x in org]
+        case['pos'] = [[x * 8.0 for x in p] for p in pos]
+        case['cutoff'] = float(cutoff) * 8.0
+        case['scale'] = 8.0
+        whole_cut = case['cutoff'] == np.rint(case['cutoff'])
+        case['form'] = {'pos': draw(WHOLE_POSFORMS), 'cutoff': draw(WHOLE_CUTFORMS if whole_cut else CUTFORMS),
+                        'sizes': draw(SIZEFORMS), 'pbc': draw(PBCFORMS)}
+    else:
+        case['form'] = {'pos': draw(DYADIC_POSFORMS), 'cutoff': draw(CUTFORMS), 'sizes': draw(SIZEFORMS), 'pbc': draw(PBCFORMS)}
+    return case
 
 
 @st.composite
@@ -168,6 +201,7 @@ def systems(draw, kind=None):
     case['pbc'] = [bool(p) for p in pbc]
     case['cutoff'] = cutoff
     case['pos'] = np.asarray(pos, dtype=float).tolist()
+    case['form'] = {'pos': draw(POSFORMS), 'cutoff': draw(CUTFORMS), 'sizes': draw(SIZEFORMS), 'pbc': draw(PBCFORMS)}
     return case
 
 
